@@ -61,6 +61,7 @@ type Op struct {
 	Inputs [][]byte  ` + "`json:\"inputs\"`" + `
 	Resets int       ` + "`json:\"resets\"`" + `
 	Extra  int       ` + "`json:\"extra\"`" + `
+	Partial int      ` + "`json:\"partial\"`" + `
 }
 
 type Res struct {
@@ -155,7 +156,12 @@ func main() {
 						l.Reset()
 					}
 					var toks []Tok
-					toks, pan = scanAll(l, len(in)+4+op.Extra, op.Extra)
+					if k == 0 && op.Partial > 0 {
+						// only a few Scan calls before the first Reset (reset in mid-stream)
+						toks, pan = scanAll(l, op.Partial, 1<<30)
+					} else {
+						toks, pan = scanAll(l, len(in)+4+op.Extra, op.Extra)
+					}
 					rounds = append(rounds, toks)
 				}
 				r.Scans = append(r.Scans, rounds)
@@ -216,6 +222,8 @@ type lexOp struct {
 	Inputs [][]byte `json:"inputs,omitempty"`
 	Resets int      `json:"resets,omitempty"`
 	Extra  int      `json:"extra"`
+	// Partial: number of Scan calls before the first Reset (0: scan to the end first)
+	Partial int `json:"partial,omitempty"`
 }
 
 type lexRes struct {
